@@ -97,6 +97,7 @@ type c5range struct {
 	hasEls bool
 	wrapN  bool // multi-entry map: chunks wrapped for multiset comparison
 }
+type c5let struct{ name, val string }
 type c5try struct{ body []c5node }
 type c5fail struct{ id int }
 
@@ -109,6 +110,8 @@ type c5gen struct {
 	useChan bool
 	useTry  bool
 	budget  int
+	vis     []string // variable names visible at the point being generated
+	nLet    int
 }
 
 var condTable = []c5cond{
@@ -118,6 +121,8 @@ var condTable = []c5cond{
 	{"nil", false}, {"np", false}, {"pp", true}, {"nm", false}, {"em", true}, {"fm", true},
 	{"nsl", false}, {"esl", true}, {"fsl", true}, {"stv", true}, {"ni", false},
 	{"not cT", false}, {"not zi", true}, {"pi > 3", true}, {"pi < 3", false}, {"cT && cF", false}, {"cF || pp", true},
+	{"hf", true}, {"nhf", true}, {"0.25", true}, {"tiny", true}, {"u8z", false}, {"u8", true}, {"i64z", false}, {"i64", true},
+	{"f32h", true}, {"f32z", false}, {"pi / 10", true}, {"1 - 0.5", true}, {"zi + 0.0", false}, {"not hf", false}, {"hf && cT", true},
 	{"zi == 0", true}, {`ns == "x"`, true}, {`zs != ""`, false}, {"len(fsl) > 0", true}, {"isset(np)", false}, {"isset(pp)", true},
 }
 
@@ -210,9 +215,12 @@ func (g *c5gen) newSubject() *subject {
 func (g *c5gen) list(depth int, max int) []c5node {
 	n := g.t.Range(1, max)
 	var out []c5node
+	saved := g.vis
+	g.vis = append([]string(nil), g.vis...)
 	for i := 0; i < n; i++ {
 		out = append(out, g.stmt(depth))
 	}
+	g.vis = saved
 	return out
 }
 
@@ -229,7 +237,7 @@ func (g *c5gen) stmt(depth int) c5node {
 		}
 		return 0
 	}
-	switch g.t.Weighted(2, 1, w(!deep, 3), w(!deep, 4), w(g.useTry && !deep, 1), w(g.useTry, 1)) {
+	switch g.t.Weighted(2, 1, w(!deep, 3), w(!deep, 4), w(g.useTry && !deep, 1), w(g.useTry, 1), w(len(g.vis) > 0, 2), 1) {
 	case 0:
 		return c5text{g.mark()}
 	case 1:
@@ -264,6 +272,30 @@ func (g *c5gen) stmt(depth int) c5node {
 			r.b = fmt.Sprintf("b%d", g.nVar)
 			// '=' form: not over ints() (its values alias the ranger's counters: C07's business)
 			r.assign = g.t.Choose(4) == 3 && r.s.kind != "ints" && !r.s.unordered // after a multi-entry map the last binding depends on map order
+			// ':=' may reuse (shadow) names that are visible here, e.g. those of an enclosing range
+			if !r.assign && len(g.vis) > 0 && g.t.Choose(3) == 2 {
+				r.a = g.vis[g.t.Choose(len(g.vis))]
+				if g.t.Choose(2) == 1 {
+					if nb := g.vis[g.t.Choose(len(g.vis))]; nb != r.a {
+						r.b = nb
+					}
+				}
+			}
+		}
+		savedVis := g.vis
+		if r.assign {
+			// the pre-declarations live in the enclosing list from here on
+			g.vis = append(g.vis, r.a)
+			savedVis = append(savedVis, r.a)
+			if r.form == 2 {
+				g.vis = append(g.vis, r.b)
+				savedVis = append(savedVis, r.b)
+			}
+		} else if r.form > 0 {
+			g.vis = append(append([]string(nil), g.vis...), r.a)
+			if r.form == 2 {
+				g.vis = append(g.vis, r.b)
+			}
 		}
 		if r.s.unordered {
 			r.wrapN = true
@@ -271,6 +303,7 @@ func (g *c5gen) stmt(depth int) c5node {
 		} else {
 			r.body = append([]c5node{c5text{g.mark()}}, g.list(depth+1, 2)...)
 		}
+		g.vis = savedVis
 		if g.t.Choose(2) == 1 {
 			r.hasEls = true
 			r.els = append([]c5node{c5text{g.mark()}}, g.list(depth+1, 2)...)
@@ -281,6 +314,17 @@ func (g *c5gen) stmt(depth int) c5node {
 	case 5:
 		g.nFail++
 		return c5fail{g.nFail}
+	case 6:
+		return c5var{g.vis[g.t.Choose(len(g.vis))]}
+	case 7:
+		// a plain declaration in this list: a fresh name, or one that shadows a visible name
+		g.nLet++
+		name := fmt.Sprintf("x%dv", g.nLet)
+		if len(g.vis) > 0 && g.t.Choose(3) == 2 {
+			name = g.vis[g.t.Choose(len(g.vis))]
+		}
+		g.vis = append(g.vis, name)
+		return c5let{name, fmt.Sprintf("L%d", g.nLet)}
 	}
 	return c5text{g.mark()}
 }
@@ -295,7 +339,9 @@ func c5src(b *strings.Builder, ns []c5node) {
 		case c5ctx:
 			b.WriteString("{{.}};")
 		case c5var:
-			b.WriteString("{{" + n.name + "}}")
+			b.WriteString("<" + n.name + "={{" + n.name + "}}>")
+		case c5let:
+			fmt.Fprintf(b, "{{%s := %q}}", n.name, n.val)
 		case *c5if:
 			for i, c := range n.conds {
 				if i == 0 {
@@ -374,17 +420,44 @@ type c5eval struct {
 	elsTaken int
 	iters    int
 	ifs      int
+	frames   []map[string]string // lexical scopes, innermost last
 }
 
 type c5abort struct{}
 
+func (e *c5eval) lookup(name string) string {
+	for i := len(e.frames) - 1; i >= 0; i-- {
+		if v, ok := e.frames[i][name]; ok {
+			return v
+		}
+	}
+	return "<undeclared>"
+}
+
+func (e *c5eval) assign(name, val string) {
+	for i := len(e.frames) - 1; i >= 0; i-- {
+		if _, ok := e.frames[i][name]; ok {
+			e.frames[i][name] = val
+			return
+		}
+	}
+}
+
+// run evaluates one statement list in its own lexical scope.
 func (e *c5eval) run(b *strings.Builder, ns []c5node, ctx string) {
+	e.frames = append(e.frames, map[string]string{})
+	depth := len(e.frames)
+	defer func() { e.frames = e.frames[:depth-1] }()
 	for _, n := range ns {
 		switch n := n.(type) {
 		case c5text:
 			b.WriteString(n.s)
 		case c5ctx:
 			b.WriteString(ctx + ";")
+		case c5var:
+			b.WriteString("<" + n.name + "=" + e.lookup(n.name) + ">")
+		case c5let:
+			e.frames[len(e.frames)-1][n.name] = n.val
 		case *c5if:
 			e.ifs++
 			done := false
@@ -400,6 +473,15 @@ func (e *c5eval) run(b *strings.Builder, ns []c5node, ctx string) {
 			}
 		case *c5range:
 			lastA, lastB := "u", "u"
+			if n.assign {
+				// the pre-declarations belong to the enclosing list
+				e.frames[len(e.frames)-1][n.a] = "u"
+				if n.form == 2 {
+					e.frames[len(e.frames)-1][n.b] = "u"
+				}
+			} else if n.form > 0 {
+				e.frames = append(e.frames, map[string]string{}) // ':=' loop variables live in a scope of their own
+			}
 			if n.wrapN {
 				b.WriteString("<<")
 			}
@@ -434,14 +516,29 @@ func (e *c5eval) run(b *strings.Builder, ns []c5node, ctx string) {
 					} else {
 						lastA = el.val
 					}
+					if n.assign {
+						e.assign(n.a, lastA)
+					} else {
+						e.frames[len(e.frames)-1][n.a] = lastA
+					}
 					b.WriteString(lastA + "~")
 				case 2:
 					lastA, lastB = el.key, el.val
+					if n.assign {
+						e.assign(n.a, lastA)
+						e.assign(n.b, lastB)
+					} else {
+						e.frames[len(e.frames)-1][n.a] = lastA
+						e.frames[len(e.frames)-1][n.b] = lastB
+					}
 					b.WriteString(lastA + "=" + lastB + "~")
 				}
 				b.WriteString(inner + ":")
 				e.run(b, n.body, inner)
 				b.WriteString(")")
+			}
+			if !n.assign && n.form > 0 {
+				e.frames = e.frames[:len(e.frames)-1]
 			}
 			if nIter == 0 && n.hasEls {
 				e.elsTaken++
@@ -459,6 +556,7 @@ func (e *c5eval) run(b *strings.Builder, ns []c5node, ctx string) {
 			}
 		case *c5try:
 			var tb strings.Builder
+			nFrames := len(e.frames)
 			func() {
 				defer func() {
 					if r := recover(); r != nil {
@@ -466,6 +564,7 @@ func (e *c5eval) run(b *strings.Builder, ns []c5node, ctx string) {
 							panic(r)
 						}
 						tb.Reset()
+						e.frames = e.frames[:nFrames] // scopes of the aborted constructs are gone
 					}
 				}()
 				e.run(&tb, n.body, ctx)
@@ -497,6 +596,8 @@ func c5vars(subs []*subject, p *Probes, chans *[]reflect.Value) jet.VarMap {
 	vm := jet.VarMap{}
 	vm.Set("cT", true).Set("cF", false).Set("zi", 0).Set("pi", 5).Set("zf", 0.0).Set("pf", 1.5)
 	vm.Set("zs", "").Set("ns", "x").Set("s0", "0")
+	vm.Set("hf", 0.5).Set("nhf", -0.5).Set("tiny", 1e-9).Set("u8z", uint8(0)).Set("u8", uint8(3)).Set("i64z", int64(0)).Set("i64", int64(-7))
+	vm.Set("f32h", float32(0.5)).Set("f32z", float32(0))
 	var np *stNonZero
 	vm.Set("np", np).Set("pp", &stNonZero{A: 1})
 	var nm map[string]int
